@@ -2333,10 +2333,10 @@ def selfcheck():
 
 # hash_process first: its shards mostly wait for their interpreters, so they should not be the tail of the run
 SUBCHECKS = [
-    SubCheck('hash_process', PROCESS_SPEC, run_hash_process, quick=16, thorough=96, quick_time=600.0, thorough_time=3000.0),
-    SubCheck('components', COMPONENTS, run_components, quick=2600, thorough=20710, quick_time=600.0, thorough_time=3000.0),
-    SubCheck('generic_code', GENERIC_SPEC, run_generic_code, quick=300, thorough=2070, quick_time=600.0, thorough_time=3000.0),
-    SubCheck('hash_content', CONTENT_SPEC, run_hash_content, quick=1000, thorough=8280, quick_time=600.0, thorough_time=3000.0),
+    SubCheck('hash_process', PROCESS_SPEC, run_hash_process, quick=16, thorough=50, quick_time=600.0, thorough_time=3000.0),
+    SubCheck('components', COMPONENTS, run_components, quick=2600, thorough=10360, quick_time=600.0, thorough_time=3000.0),
+    SubCheck('generic_code', GENERIC_SPEC, run_generic_code, quick=300, thorough=1040, quick_time=600.0, thorough_time=3000.0),
+    SubCheck('hash_content', CONTENT_SPEC, run_hash_content, quick=1000, thorough=4140, quick_time=600.0, thorough_time=3000.0),
 ]
 
 
